@@ -86,6 +86,16 @@ func runC02(w *W) {
 		w.Sig(fmt.Sprintf("deep:reqs%d", knobs.ReqsCap))
 	}
 	sch := genSchema(t, so)
+	if deep && t.Chance(1, 2, "deep.reqscap.exact") {
+		// an arena that the bitmaps of the first k levels of the chain fill exactly
+		maxID := 0
+		for _, f := range sch.Root.St.Fields {
+			if f.ID > maxID {
+				maxID = f.ID
+			}
+		}
+		knobs.ReqsCap = (1 + t.Intn(4, "deep.reqscap.k")) * (maxID/64 + 1) * 8
+	}
 	po := thrift.Options{}
 	// thrift request base: a root field of type base.Base is filled from the context, in front of the JSON members
 	var reqBase *base.Base
@@ -157,7 +167,9 @@ func runC02(w *W) {
 			style.TrailingWS = t.Intn(40, "js.trailing.n")
 		}
 		js := style.render(val)
+		stopMarks = stopMarks[:0]
 		exp, experr := expectJ2T(append([]byte{}, baseBytes...), val, wo)
+		stops := append([]int{}, stopMarks...)
 		negative := ""
 		if experr == expOK && t.Chance(1, 8, "doc.negative") && len(js) > 2 {
 			// malformed inside the top-level value: cut the document short
@@ -169,7 +181,7 @@ func runC02(w *W) {
 
 		nenv := 2 + t.Intn(3, "nenv")
 		for k := 0; k < nenv; k++ {
-			env := drawJ2TEnv(w, len(exp), len(js))
+			env := drawJ2TEnvAt(w, exp, len(js), stops)
 			b64 := hasBinary(val) && !opts.NoBase64Binary
 			if b64 && env.DoInto {
 				env.OutPlace = simrt.PlaceGuardEnd
